@@ -68,8 +68,9 @@ class World:
 
 def setup(ctx):
     w = World()
-    specs = [('p256', b'example.com,www.example.com'), ('p384', b'example.com'), ('p256', b'other.example'), ('p521', b'example.com')]
-    res = ctx.go([f'setup.key {c} {hexs(h)} {i + 1}' for i, (c, h) in enumerate(specs)])
+    specs = [('p256', b'example.com,www.example.com'), ('p384', b'example.com'), ('p256', b'other.example'), ('p521', b'example.com'),
+             ('p256', b'example.com')]      # the last one shares its serial number (and curve, and host) with the first: distinct certificates that coincide in an attribute
+    res = ctx.go([f'setup.key {c} {hexs(h)} {[1, 2, 3, 4, 1][i]}' for i, (c, h) in enumerate(specs)])
     w.keys = []
     for (c, h), r in zip(specs, res):
         if r and r.startswith('ok '):
@@ -160,8 +161,10 @@ def fetch_str(fetch):
     return ','.join(f'{hexs(u)}:{b}' for u, b in fetch.items()) or '.'
 
 
-def verify_stage(ctx, items):
-    """items: list of (exchange(list of 8), (sec, nsec), fetch dict url(bytes)->chain hex or 'err'). Compared op: sxg.verify."""
+def verify_stage(ctx, items, reread=None, tz=None):
+    """items: list of (exchange(list of 8), (sec, nsec), fetch dict url(bytes)->chain hex or 'err'). Compared op: sxg.verify.
+    tz: {item index: [zone names]} -> additionally sxg.verify.tz (the harness process's local zone set to each of them).
+    reread: {item index: file hex} -> additionally sxg.verify.reread (object read from that file, edited into the item's exchange)."""
     if not items:
         return [], []
     needs = ctx.model([f'sxg.verify.needs {exs(e)} {fetch_str(f)}' for e, t, f in items])
@@ -170,7 +173,13 @@ def verify_stage(ctx, items):
     tabs = oracle_tables(ctx, need_lists, None)
     st = status_table(ctx)
     ops = [f'sxg.verify {exs(e)} {t[0]} {t[1]} {u} {fetch_str(f)} {c} {s} {st}' for (e, t, f), (u, c, s) in zip(items, tabs)]
-    return ctx.both(ops)
+    # provenance variants: the same verification on an object obtained from ReadExchange(file) and then edited in place into `e`
+    extra = []
+    if reread:
+        extra += [f'sxg.verify.reread {reread[i]} {ops[i][len("sxg.verify "):]}' for i in sorted(reread) if i < len(ops)]
+    if tz:
+        extra += [f'sxg.verify.tz {z} {ops[i][len("sxg.verify "):]}' for i in sorted(tz) if i < len(ops) for z in tz[i]]
+    return ctx.both(ops + extra)
 
 
 def read_stage(ctx, files, op='sxg.read'):
